@@ -2,7 +2,7 @@
  * lower-case input of up to BUF_N bytes (call sites pass a non-empty, lower-cased ASCII host). */
 void harness(void) {
   HAVOC_BUFS;
-  sv_t view; view.n = nondet_size(); MAKE_SV(view);
+  ND_SV(view);
   __CPROVER_assume(view.n >= 1);
   _Bool r = is_ipv4(view);
   _Bool e = ref_ends_in_number(view);
